@@ -38,6 +38,10 @@ func NewTransactionsPool(blocksManager application.BlocksManager, settings appli
 }
 
 func (pool *TransactionsPool) AddTransaction(transaction *ledger.Transaction, broadcasterTarget string, hostTarget string) {
+	if transaction == nil {
+		pool.logger.Debug("failed to add transaction: the transaction is null")
+		return
+	}
 	err := pool.addTransaction(transaction)
 	if err != nil {
 		pool.logger.Debug(fmt.Errorf("failed to add transaction: %w", err).Error())
